@@ -12,7 +12,7 @@ VERIF = os.path.dirname(os.path.dirname(os.path.abspath(__file__)))
 REPO = os.environ.get('VERIF_REPO', '/repo')
 TOOLS = os.path.join(VERIF, 'tools')
 CACHE = os.path.join(VERIF, '.cache')
-WORK = os.path.join(VERIF, 'work')
+WORK = os.environ.get('VERIF_WORK') or os.path.join(VERIF, 'work')     # mutation runs use their own work / evidence directories (tools/mutation_matrix.py)
 sys.path.insert(0, TOOLS)
 
 DEFS = ['-DDISPATCH_USE_DTRACE=0', '-DHAVE_CONFIG_H', '-D_GNU_SOURCE=1', '-Ddispatch_EXPORTS', '-DNDEBUG']
@@ -422,7 +422,7 @@ def run_property(pid, harnesses, tier, level='model_checking', assumptions=(), t
     t0 = time.time()
     seed = int(os.environ.get('VERIF_SEED', '0') or 0)
     outdir = os.path.join(WORK, pid); shutil.rmtree(outdir, ignore_errors=True); os.makedirs(outdir, exist_ok=True)
-    evp = os.path.join(VERIF, 'evidence', pid + '.json')
+    evp = os.path.join(os.environ.get('VERIF_EVIDENCE_DIR') or os.path.join(VERIF, 'evidence'), pid + '.json')
     hs = [h for h in harnesses if tier in h.tiers]
     seen = set(); hs = [h for h in hs if not (h.name in seen or seen.add(h.name))]      # duplicate registrations are run once
     for h in hs: h.pid = pid
